@@ -5,6 +5,7 @@ import json
 import os
 import re
 import shutil
+import signal
 import subprocess
 import sys
 import time
@@ -37,15 +38,26 @@ def log(*a):
 
 
 def run(cmd, cwd=None, timeout=1800, env=None, stdin=None):
+    """Run a command in its own process group; on timeout the whole group is killed (a harness that is
+    killed must not leave its worker processes behind)."""
     t0 = time.time()
+    p = subprocess.Popen(
+        cmd, cwd=cwd, env=env or ENV, stdout=subprocess.PIPE, stderr=subprocess.STDOUT,
+        stdin=subprocess.PIPE if stdin is not None else None, text=True, errors="replace",
+        start_new_session=True)
     try:
-        p = subprocess.run(
-            cmd, cwd=cwd, env=env or ENV, stdout=subprocess.PIPE, stderr=subprocess.STDOUT,
-            timeout=timeout, input=stdin, text=True, errors="replace")
-        return p.returncode, p.stdout, time.time() - t0
-    except subprocess.TimeoutExpired as e:
-        out = e.stdout if isinstance(e.stdout, str) else (e.stdout or b"").decode("utf8", "replace")
-        return 124, out + "\n<timeout>", time.time() - t0
+        out, _ = p.communicate(input=stdin, timeout=timeout)
+        return p.returncode, out, time.time() - t0
+    except subprocess.TimeoutExpired:
+        try:
+            os.killpg(p.pid, signal.SIGKILL)
+        except OSError:
+            pass
+        try:
+            out, _ = p.communicate(timeout=10)
+        except Exception:
+            out = ""
+        return 124, (out or "") + "\n<timeout>", time.time() - t0
 
 
 def build_harness():
